@@ -10,6 +10,7 @@ COMMON_ASSUMPTIONS = [
 PROPERTIES: dict[str, dict] = {
     "C01": {
         "rules": ["R-BLISS", "R-FLOW-CANON", "R-FLOW-SERIAL", "R-KEYS", "R-BIJ", "R-OWNFIRST", "R-HASH"],
+        "thorough_rules": ["R-LIBSRC"],
         "technique": "information-flow (order/label/hash taint) abstract interpretation + index-space typing of the bliss call site",
         "explanation": "Non-interference proof over all paths of canonicalize_molecule and serialize_molecule: colours handed to bliss carry no "
                        "label/listing-order/hash taint, the bliss permutation is consumed in the index convention of the installed igraph "
@@ -30,6 +31,7 @@ PROPERTIES: dict[str, dict] = {
     },
     "C03": {
         "rules": ["R-CODEC", "R-KEYS", "R-ELEMTABLE", "R-GRAM3", "R-SHAPE", "R-ZERO", "R-BLISS", "R-FLOW-CANON", "R-FLOW-SERIAL", "R-BIJ"],
+        "thorough_rules": ["R-LIBSRC"],
         "technique": "codec-agreement rules + language inclusion (emitted ⊆ grammar) by automata + the C01 flow proof for the fixed-point half",
         "explanation": "Serializer/parser agreement (offsets, key tables, numbering by atomic number, stable sort), emitted strings are sentences of the "
                        "grammar the parser implements (inclusion decided on automata), and the pipeline is independent of insertion order and labels "
@@ -39,6 +41,7 @@ PROPERTIES: dict[str, dict] = {
     },
     "C04": {
         "rules": ["R-BLISS", "R-BIJ", "R-FLOW-CANON", "R-COPY", "R-KEYS", "R-OWNFIRST"],
+        "thorough_rules": ["R-LIBSRC"],
         "technique": "index-space typing of the bliss call site + taint analysis of the colour vector",
         "explanation": "The property's own mechanism: label-independent colours (taint proof), bliss called with them, its result used in the "
                        "convention of the installed igraph (or through permute_vertices), the relabel map typed Map[NX=>CAN] and bijective.",
@@ -100,6 +103,7 @@ PROPERTIES: dict[str, dict] = {
     },
     "C11": {
         "rules": ["R-FLOW-PARSE", "R-BLISS", "R-FLOW-CANON", "R-FLOW-SERIAL", "R-BIJ", "R-KEYS"],
+        "thorough_rules": ["R-LIBSRC"],
         "technique": "taint analysis of the parser listener composed with the C01 flow proof",
         "explanation": "Spelling (tuple order, orientation, repetition, block order) reaches the parsed graph only as insertion order; the pipeline is "
                        "proved independent of insertion order and labels (C01 rules).",
@@ -108,6 +112,7 @@ PROPERTIES: dict[str, dict] = {
     },
     "C12": {
         "rules": ["R-EFFECT", "R-COPY", "R-BIJ", "R-GLOBAL"],
+        "thorough_rules": ["R-LIBSRC"],
         "technique": "effect analysis (mutation of arguments / shared objects) + bijection proof of relabel maps",
         "explanation": "canonicalize_molecule mutates nothing reachable from its argument; serialize_molecule writes only the scratch key `explored`, "
                        "initialised before it is read; relabels work on copies with bijective maps, so no atom or bond is merged or lost.",
@@ -141,6 +146,7 @@ PROPERTIES: dict[str, dict] = {
     },
     "C16": {
         "rules": ["R-CARRY", "R-LABELORDER", "R-SEED", "R-RETRY", "R-COPY", "R-BIJ", "R-EFFECT"],
+        "thorough_rules": ["R-LIBSRC"],
         "technique": "CFG dominance / must-pass-through rules + def-use tracing of the rebuilt graph's sources",
         "explanation": "The rebuilt graph takes nodes from nodes(data=True) in sorted label order and edges from edges(data=True); random.seed(<seed "
                        "parameter>) dominates every RNG draw; return is reachable only over the changed-edge-set test when the graph has >= 2 edges and "
